@@ -403,6 +403,8 @@ def unit_clobber(U):
                 os.chdir(d)
                 arg = fname
             reader = None
+            n_noforce += 1
+            distinct_a.add((old.name, post, new.name, form, pstyle))
             try:
                 make_old(old, post, arg, d)
                 case = {"old": old.describe(), "old_history": post, "new": new.describe(), "data_form": form, "path": pstyle}
@@ -411,8 +413,6 @@ def unit_clobber(U):
                     reader = gffutils.FeatureDB(arg)
                     next(iter(reader.all_features()))
                 # ---- force=False: must raise, must leave everything as it was
-                n_noforce += 1
-                distinct_a.add((old.name, post, new.name, form, pstyle))
                 raised = None
                 try:
                     r = run_create(new, arg, False, form, d)
@@ -425,8 +425,15 @@ def unit_clobber(U):
                     f_noforce.append({"case": dict(case, force=False),
                                       "expected": "an exception and an unchanged file",
                                       "observed": {"raised": repr(raised), "changes": diffs}})
-                # ---- force=True: only the new input
-                if os.path.exists(path) and not diffs:
+                # ---- force=True: only the new input (on a rebuilt old database if the first half damaged it)
+                if diffs or not os.path.exists(path):
+                    if reader is not None:
+                        close(reader)
+                        reader = None
+                    for fn in os.listdir(d):
+                        os.unlink(os.path.join(d, fn))
+                    make_old(old, post, arg, d)
+                if True:
                     n_force += 1
                     distinct_b.add((old.name, post, new.name, form, pstyle))
                     key = (new.name, form)
@@ -451,6 +458,12 @@ def unit_clobber(U):
                     if probs:
                         f_force.append({"case": dict(case, force=True), "expected": "exactly the new input",
                                         "observed": probs})
+            except Exception as e:
+                # the stand-in's own set-up (building / observing the old database) failed: never on a healthy tree
+                f_noforce.append({"case": {"old": old.describe(), "old_history": post, "new": new.describe(), "data_form": form,
+                                           "path": pstyle},
+                                  "expected": "old database can be built, observed and overwritten",
+                                  "observed": "stand-in set-up raised %r" % (e,)})
             finally:
                 if reader is not None:
                     close(reader)
@@ -723,16 +736,21 @@ class QueryBed(object):
         self.work = tempfile.mkdtemp(prefix=prefix, dir=tempfile.gettempdir())
         self.specs = query_specs(U.rng, U.thorough)
         self.pristine, self.state, self.alpha = {}, {}, {}
-        os.mkdir(os.path.join(self.work, "pristine"))
-        for s in self.specs:
-            d = os.path.join(self.work, "pristine", s.name)
-            os.mkdir(d)
-            p = os.path.join(d, "q.db")
-            close(run_create(s, p, False, "string", d))
-            self.pristine[s.name] = p
-            self.state[s.name] = State(p)
-            self.alpha[s.name] = alphabet(p, U.thorough)
+        self.spec = {s.name: s for s in self.specs}
         self.n = 0
+        try:
+            os.mkdir(os.path.join(self.work, "pristine"))
+            for s in self.specs:
+                d = os.path.join(self.work, "pristine", s.name)
+                os.mkdir(d)
+                p = os.path.join(d, "q.db")
+                close(run_create(s, p, False, "string", d))
+                self.pristine[s.name] = p
+                self.state[s.name] = State(p)
+                self.alpha[s.name] = alphabet(p, U.thorough)
+        except Exception:
+            self.cleanup()
+            raise
 
     def copy(self, name):
         self.n += 1
@@ -749,13 +767,26 @@ class QueryBed(object):
 OPEN_MODES = (dict(), dict(keep_order=True, sort_attribute_values=True), dict(text_factory=None))
 
 
-def run_reads(bed, name, calls, partial_flags, open_kw, memory=False, probe_ids=False):
-    """runs the calls on a private copy; returns (problems, number of calls that raised)"""
+def run_reads(bed, name, calls, partial_flags, open_kw, memory=False, probe_ids=False, fresh=False):
+    """runs the calls on a private copy (fresh=True: on the object create_db returns for a newly built file);
+    returns (problems, number of calls that raised)"""
+    try:
+        return _run_reads(bed, name, calls, partial_flags, open_kw, memory, probe_ids, fresh)
+    except Exception as e:
+        return [{"stand-in could not open / observe / probe the database": repr(e)}], 0
+
+
+def _run_reads(bed, name, calls, partial_flags, open_kw, memory=False, probe_ids=False, fresh=False):
     d, p = bed.copy(name)
     problems, raised = [], 0
     keep = []
+    base = bed.state[name]
     try:
-        if memory:
+        if fresh:
+            os.unlink(p)
+            db = run_create(bed.spec[name], p, False, "string", d, extra=open_kw_for_create(open_kw))
+            base = State(p)
+        elif memory:
             src = sqlite3.connect(p)
             conn = sqlite3.connect(":memory:")
             src.backup(conn)
@@ -784,12 +815,12 @@ def run_reads(bed, name, calls, partial_flags, open_kw, memory=False, probe_ids=
         else:
             # 'observed by reopening the file afterwards' - first with the handle still alive, then after closing it
             st = State(p)
-            diffs = bed.state[name].differences(st)
+            diffs = base.differences(st)
             del keep[:]
             db.conn.close()
             del db
             st2 = State(p)
-            diffs2 = bed.state[name].differences(st2)
+            diffs2 = base.differences(st2)
             for x in diffs + [y for y in diffs2 if y not in diffs]:
                 problems.append(x)
             if probe_ids and not problems:
@@ -798,6 +829,10 @@ def run_reads(bed, name, calls, partial_flags, open_kw, memory=False, probe_ids=
         del keep[:]
         shutil.rmtree(d, ignore_errors=True)
     return problems, raised
+
+
+def open_kw_for_create(open_kw):
+    return {k: v for k, v in open_kw.items() if k in ("keep_order", "sort_attribute_values")}
 
 
 def probe_counters(bed, name, p):
@@ -824,21 +859,27 @@ def probe_counters(bed, name, p):
 
 def unit_reads_single(U):
     """every call of the alphabet alone, on every database"""
-    bed = QueryBed(U, "c19_single_")
+    try:
+        bed = QueryBed(U, "c19_single_")
+    except Exception as e:
+        U.bounded_result("C19.bounded.reads_single", "the databases the read-style calls run on can be built and observed",
+                         "set-up", 1, [{"case": "set-up of the query databases", "expected": "no exception", "observed": repr(e)}])
+        return
     fails, cases, raised_total = [], 0, 0
     per_method = collections.Counter()
     try:
         for s in bed.specs:
             for k, c in enumerate(bed.alpha[s.name]):
                 mem = (k % 7 == 3)
+                fresh = (k % 11 == 5) and not mem
                 okw = OPEN_MODES[k % len(OPEN_MODES)] if k % 5 == 0 else {}
                 cases += 1
                 per_method[c.method] += 1
-                probs, r = run_reads(bed, s.name, [c], [False], okw, memory=mem)
+                probs, r = run_reads(bed, s.name, [c], [False], okw, memory=mem, fresh=fresh)
                 raised_total += r
                 if probs:
                     fails.append({"case": {"database": s.describe(), "open": {k2: repr(v) for k2, v in okw.items()},
-                                           "in_memory_copy": mem, "calls": [c.text]},
+                                           "in_memory_copy": mem, "on_object_returned_by_create_db": fresh, "calls": [c.text]},
                                   "expected": "no write", "observed": probs})
     finally:
         bed.cleanup()
@@ -850,14 +891,19 @@ def unit_reads_single(U):
                      "features_of_type, iter_by_parent_childs, children, parents, region, interfeatures, create_introns, "
                      "create_splice_sites, merge, children_bp, bed12 (%s) on %d databases (GFF3 with overlapping exons, shared "
                      "exons, stored counters, duplicates, directives; GTF; single feature; %d seeded-random); every 7th case on an "
-                     "in-memory copy; %d of the calls raised (rejected arguments)"
+                     "in-memory copy, every 11th on the object create_db returns for a new file; %d of the calls raised (rejected arguments)"
                      % (", ".join("%s:%d" % kv for kv in sorted(per_method.items())), len(bed.specs), len(bed.specs) - 3, raised_total),
                      cases, fails, exhaustive=True, distinct=cases)
 
 
 def unit_reads_seq(U):
     """ordered pairs over one representative per method + seeded-random longer sequences with half-consumed iterators"""
-    bed = QueryBed(U, "c19_seq_")
+    try:
+        bed = QueryBed(U, "c19_seq_")
+    except Exception as e:
+        U.bounded_result("C19.bounded.reads_sequences", "the databases the read-style calls run on can be built and observed",
+                         "set-up", 1, [{"case": "set-up of the query databases", "expected": "no exception", "observed": repr(e)}])
+        return
     rng = U.rng
     fails, cases = [], 0
     distinct = set()
@@ -882,7 +928,7 @@ def unit_reads_seq(U):
                     if not U.thorough and s.name == "Q2" and (reps.index(a) + reps.index(b)) % 3:
                         continue
                     seqs.append(([a, b], [False, False]))
-            nr = (400 if U.thorough else 60) if s.name in ("Q1", "Q2") else (150 if U.thorough else 25)
+            nr = (1200 if U.thorough else 60) if s.name in ("Q1", "Q2") else (400 if U.thorough else 25)
             for _ in range(nr):
                 L = rng.randint(2, 8 if U.thorough else 6)
                 cs = []
@@ -895,10 +941,12 @@ def unit_reads_seq(U):
                 okw = OPEN_MODES[k % len(OPEN_MODES)] if k % 4 == 0 else {}
                 cases += 1
                 distinct.add((s.name, tuple(c.text for c in cs), tuple(flags)))
-                probs, r = run_reads(bed, s.name, cs, flags, okw, memory=False, probe_ids=(k % 3 == 0 or U.thorough))
+                probs, r = run_reads(bed, s.name, cs, flags, okw, memory=False, probe_ids=(k % 3 == 0 or U.thorough),
+                                     fresh=(k % 9 == 4))
                 raised_total += r
                 if probs:
                     fails.append({"case": {"database": s.describe(), "open": {k2: repr(v) for k2, v in okw.items()},
+                                           "on_object_returned_by_create_db": k % 9 == 4,
                                            "calls": [c.text for c in cs], "only_first_item_consumed": flags},
                                   "expected": "no write", "observed": probs})
     finally:
@@ -909,7 +957,7 @@ def unit_reads_seq(U):
                      "it); an ID-less feature added after reopening gets '<type>_<pristine counter + 1>'",
                      "all ordered pairs over 1-2 representative calls per method (merge-producing variants included) on the GFF3 and GTF "
                      "databases%s, plus %d seeded-random sequences of length 2..%d over the full argument grid with 30%% of the results "
-                     "only consumed up to the first item (generator left open); %d calls raised"
+                     "only consumed up to the first item (generator left open), every 9th case on the object create_db returns for a new file; %d calls raised"
                      % (" and the others" if U.thorough else " (a third of the pairs on GTF)", n_rand, 8 if U.thorough else 6, raised_total),
                      cases, fails, distinct=len(distinct))
 
